@@ -1231,11 +1231,13 @@ class ClientSession:
                 headers = CIMultiDict(headers)
             added_names: set[str] = set()
             for key, value in headers.items():
-                if key in added_names:
+                # field names are case-insensitive: 'X-A' and 'x-a' repeat a name
+                name = key.lower()
+                if name in added_names:
                     result.add(key, value)
                 else:
                     result[key] = value
-                    added_names.add(key)
+                    added_names.add(name)
         return result
 
     def _get_netrc_auth(self, host: str) -> str | None:
